@@ -103,6 +103,16 @@ def gen_sol(rng, family):
         sufs.append((kind, name, table, vals))
     s['sufs'] = sufs
     s['family'] = family
+    # writer entry point: mp::WriteSolFile directly, or through mp::SolutionWriterImpl (final <stub>.sol / intermediate <solstub>N.sol):
+    # there the vectors are either absent or have exactly the problem's sizes, which need not be equal (non-square problems)
+    s['via'] = rng.choice(['direct', 'direct', 'final', 'stub', 'stub'])
+    if s['via'] != 'direct':
+        s['ncons'] = rng.choice([0, 1, 2, 3, 7, 12])
+        s['nvars'] = rng.choice([0, 1, 2, 5, 9, 12])
+        s['duals'] = [val() for _ in range(s['ncons'])] if rng.random() < 0.8 else []
+        s['primals'] = [val() for _ in range(s['nvars'])] if rng.random() < 0.85 else []
+        s['status'] = rng.choice([0, 100, 200, 299, 500, 567, -1, 999])
+        s['family'] = family + ':' + s['via']
     return s
 
 
@@ -121,9 +131,9 @@ def sol_line(cid, s, nvd, ncd):
     for kind, name, table, vals in set_order(s['sufs']):
         v = (reals(vals) if kind & 4 else ','.join(str(x) for x in vals)) or '-'
         sufs.append('%d:%s:%s:%s' % (kind, name.hex() or '-', table.hex() or '-', v))
-    return 'sol %s %d %d %d %s %s %d %d %s %s %d %d %s' % (
+    return 'sol %s %d %d %d %s %s %d %d %s %s %d %d %s %s' % (
         cid, C14.FX[0], nvd, ncd, s['msg'].hex() or '-', ','.join(map(str, s['options'])) or '-', s['ncons'], s['nvars'],
-        reals(s['duals']), reals(s['primals']), s['objno'], s['status'], ';'.join(sufs) or '-')
+        reals(s['duals']), reals(s['primals']), s['objno'], s['status'], ';'.join(sufs) or '-', s.get('via', 'direct'))
 
 
 # ---------------------------------------------------------------- the property, evaluated on what the real writer+reader did
@@ -153,7 +163,7 @@ def side_conditions(s):
         return 'options:zero-options'
     if n in (1, 2):
         return 'options:count-1-or-2'
-    if s['options'][1] == 3:
+    if len(s['options']) > 1 and s['options'][1] == 3:
         return 'options:vbtol-flag-3'
     if any(l.endswith(b'\r') for l in lines):
         return 'message:line-ends-with-cr'
